@@ -1,4 +1,5 @@
 import Req.Client.Redirect
+import Req.Lemmas.C11Hdr
 /-! C11: composition and redirect-chain invariants. -/
 namespace Req.Lemmas.C11
 open Req.Proto Req.Redirect
@@ -196,5 +197,55 @@ theorem allPermitted_no (ps : List (Option Policy)) (hn : some noRedirectPolicy 
   | cons x xs =>
     have := h.1 _ hn
     simp [noRedirectPolicy] at this
+
+theorem goStrips_split (s : Bool) (a b : Bytes) : goStrips s a b = (s || goStrips false a b) := by
+  simp [goStrips]
+
+/-- Header flow along a chain whose policies are built from redirect.go's constructors. -/
+theorem follow_headers (ds : List PolicyDesc) (init : Headers) (k : Bytes) (ts : List Bytes)
+    (st : ChainState) (hinit : st.via.first.hdr = init) :
+    ∃ later, (follow (ds.map PolicyDesc.denote) init st ts).1 = st.via.toList ++ later ∧
+      ∀ j (hj : j < later.length),
+        later[j].hdr.values k =
+          if (st.stripped || crossed st.via.first.host (ts.take (j + 1))) = true ∧
+              isSensitive k = true ∧ copyListed ds k = false
+          then [] else init.values k := by
+  induction ts generalizing st with
+  | nil => exact ⟨[], by simp [follow], by intro j hj; simp at hj⟩
+  | cons t ts ih =>
+    unfold follow
+    simp only
+    generalize hc : compose (ds.map PolicyDesc.denote) t
+      (goCopyHeaders init (goStrips st.stripped st.via.first.host t)) st.via = r
+    obtain ⟨d, hdr⟩ := r
+    cases d with
+    | allow =>
+      simp only
+      have hal : (compose (ds.map PolicyDesc.denote) t
+          (goCopyHeaders init (goStrips st.stripped st.via.first.host t)) st.via).1 = .allow := by rw [hc]
+      have hv := compose_values ds t _ st.via k hal
+      rw [hc] at hv
+      simp only at hv
+      obtain ⟨later, hs, hh⟩ := ih
+        { via := st.via.push ⟨t, hdr⟩, stripped := goStrips st.stripped st.via.first.host t }
+        (by simpa [Via.push] using hinit)
+      refine ⟨⟨t, hdr⟩ :: later, by rw [hs]; simp [Via.push, Via.toList], ?_⟩
+      intro j hj
+      cases j with
+      | zero =>
+        simp only [List.getElem_cons_zero, hv, goCopy_values, hinit]
+        rw [goStrips_split]
+        simp only [crossed, List.take_succ_cons, List.take_zero, List.any_cons, List.any_nil, Bool.or_false]
+        generalize (st.stripped || goStrips false st.via.first.host t) = S
+        cases S <;> cases hsens : isSensitive k <;> cases hcl : copyListed ds k <;>
+          by_cases hE : init.values k = [] <;> simp [hE]
+      | succ j =>
+        have := hh j (by simpa using hj)
+        simp only [List.getElem_cons_succ, this, Via.push]
+        rw [goStrips_split]
+        simp only [crossed, List.take_succ_cons, List.any_cons, Bool.or_assoc]
+        rfl
+    | deny => exact ⟨[], by simp, by intro j hj; simp at hj⟩
+    | useLast => exact ⟨[], by simp, by intro j hj; simp at hj⟩
 
 end Req.Lemmas.C11
